@@ -224,3 +224,13 @@ package keeper
 
 // verif:func (Keeper).PacketAcknowledgements
 //@ callsite NewStore [prefix-of-the-pair] prefix == bytes(host.PacketAcknowledgementPrefixPath(req.SrcChain, req.DstChain))
+
+// ---- genesis export readers: read-only (their results are what ExportGenesis returns, see x/xibc/core/packet) ----
+// verif:func (Keeper).GetAllPacketAcks
+//@ ensures [read-only] unchanged(ctx)
+// verif:func (Keeper).GetAllPacketCommitments
+//@ ensures [read-only] unchanged(ctx)
+// verif:func (Keeper).GetAllPacketReceipts
+//@ ensures [read-only] unchanged(ctx)
+// verif:func (Keeper).GetAllPacketSendSeqs
+//@ ensures [read-only] unchanged(ctx)
